@@ -687,9 +687,9 @@ BundleOf ==
                 b     == Bundle0(IF idx[6] = 1 THEN "hdr" ELSE "qry")
                 base  == IF idx[6] = 1 THEN <<B("host"), B("x-amz-date")>> ELSE <<B("host")>>
             IN [b EXCEPT !.L.hdrs = @ \o hs,
-                         \* mask index 8 (quick) / every 8th (thorough): the dropped / first name is listed, but capitalised
+                         \* mask index 4 (quick) / every 8th (thorough): a dropped name is listed, but capitalised
                          !.L.signed = SortLex(base \o SubsetOf(names, mask)
-                                              \o (IF idx[7] % 8 = 0 /\ names # <<>> /\ mask # full
+                                              \o (IF idx[7] % 8 = 4 /\ names # <<>> /\ mask # full
                                                   THEN << Styled((CHOOSE n \in SeqToSet(names) : ~HasElem(SubsetOf(names, mask), n)), 3) >>
                                                   ELSE <<>>)),
                          !.cfg.always = StyledSubset(ReqAlways, IF Bound = 0 THEN 3 * (idx[1] - 1) ELSE idx[1] - 1, style),
